@@ -79,7 +79,7 @@ def _scn(*a, **k):
 # node ids are positions in `pool`
 _scn('lists',
      pool=[(D, None), (E, 'p'), (E, 'q'), (E, 'p'), (T, 'x'), (T, 'y')],
-     setup=[], ops=ALL_INS + ALL_DEL, depth={'quick': 4, 'thorough': 5}, targets=(0, 1))
+     setup=[], ops=ALL_INS + ALL_DEL, depth={'quick': 4, 'thorough': 5})
 _scn('frags',
      pool=[(E, 'p'), (E, 'q'), (T, 'x'), (F, None), (E, 'p'), (T, 'y'), (F, None)],
      setup=[('append', 3, 4, NA), ('append', 3, 5, NA)],
@@ -597,15 +597,20 @@ def judge_state(scn, history, r=None, demo=False):
     stale = {n: p for n, p in enumerate(par) if p is not None and q[0].get(n) != p and r.kind[n] != F}
     note = ''
     if demo and 'cycle' in vi:
-        a, b = [pr for pr, x in zip(q[3], vi[-len(q[3]):]) if x == 'cycle'][0]
-        try:
-            with core.time_limit(1.0):
-                note = '; real call %d.compareDocumentPosition(%d) returned %r' % (
-                    a, b, im.nodes[a].compareDocumentPosition(im.nodes[b]))
-        except core.Timeout:
-            note = '; real call %d.compareDocumentPosition(%d) did not return within 1 s' % (a, b)
-        except MemoryError:
-            note = '; real call %d.compareDocumentPosition(%d) ran out of memory' % (a, b)
+        # replay only: show what the real calls do on a few of the pairs whose parent chain is a cycle
+        shown = []
+        for (a, b), x, want in list(zip(q[3], vi[-len(q[3]):], vm[-len(q[3]):])):
+            if x != 'cycle' or len(shown) >= 4:
+                continue
+            try:
+                with core.time_limit(0.3):
+                    got1 = im.nodes[a].compareDocumentPosition(im.nodes[b])
+                shown.append('%d.compareDocumentPosition(%d) returned %r (tree: %r)' % (a, b, got1, want))
+            except core.Timeout:
+                shown.append('%d.compareDocumentPosition(%d) did not return within 0.3 s (tree: %r)' % (a, b, want))
+            except MemoryError:
+                shown.append('%d.compareDocumentPosition(%d) ran out of memory' % (a, b))
+        note = '; real calls: ' + '; '.join(shown)
     for dev, sub in subsets(M.VIEW):
         if vi == model_views(r, q, dev):
             out.update(verdict='known', fids=[M.DEV_NAMES[f] for f in sub],
